@@ -1,6 +1,7 @@
 import WV.Model.Client
 import WV.Gen.Skel
 import WV.Gen.Asserts
+import WV.Gen.Flags
 
 /-!
 # Skeleton agreement for the composed mailbox client (obligation of C08, C09, C14, C18)
@@ -156,5 +157,10 @@ theorem asserts_accounted :
        "_send.py:Send._encrypt_and_send: self._key",
        "_rendezvous.py:WSClient.onMessage: not isBinary",
        "_rendezvous.py:RendezvousConnector._tx: self._ws"] := by decide
+
+/-- **service_is_plain_clientservice** — the environment's "a connection can come up whenever none exists and the
+    service was not stopped" is Twisted's `ClientService` with its default retry policy; the harness substitutes the class,
+    so the construction itself is pinned: `internet.ClientService(ep, f)`, no `retryPolicy`, no other keyword. -/
+theorem service_is_plain_clientservice : Flags.clientservice_plain_constructor = true := by decide
 
 end WV.Props.ClientSkel
